@@ -1022,6 +1022,116 @@ def behavioural(ctx, usable, tier, rng, export_budget_s, only=None):
     return out
 
 
+# ------------------------------------------------------------------ tie: Coq model of the call-signature adapter = real plan_call
+def adapter_tie(ctx, usable, n_real, n_synth):
+    """compares PySig.adapter with jax2onnx.plugins._patching.plan_call (when the tree has the adapter) on random call forms
+    over the real (original, inner substitute) signature pairs and over synthetic pairs"""
+    try:
+        from jax2onnx.plugins import _patching
+        plan_call = _patching.plan_call
+    except Exception:
+        return {"present": False}
+    rng = ctx.rng
+    rev = {v: k for k, v in KIND.items()}
+    pairs = []
+    for e in usable:
+        inner = getattr(e["sub"], "__j2o_substitute__", None)
+        if inner is None:
+            continue
+        so, sn = sig_of(e["orig"] if not isinstance(e["orig"], (staticmethod, classmethod)) else e["orig_call"], True), sig_of(inner, False)
+        if so is None or sn is None:
+            continue
+        o, w = to_params(so), to_params(sn)
+        if o is not None and w is not None and (w, o, so, sn) not in pairs:
+            pairs.append((w, o, so, sn))
+    differing = [p for p in pairs if p[0] != p[1] and not (len(p[0]) == 2 and p[0][0][1] == "VarPos" and p[0][1][1] == "VarKw")]
+    cases = []
+
+    def mk_case(w, o, so, sn):
+        for _try in range(8):          # most cases should be call forms of the original (that is where the adapter decides)
+            n, kws = random_call(rng, o, [p[0] for p in w])
+            if py_binds(so, n, kws) or rng.random() < 0.15:
+                break
+        o_pos = [p for p in so.parameters.values() if p.kind in (p.POSITIONAL_ONLY, p.POSITIONAL_OR_KEYWORD)]
+        dflt, args, kwargs = [], [], {}
+        for i in range(n):
+            p = o_pos[i] if i < len(o_pos) else None
+            if p is not None and p.default is not p.empty and rng.random() < 0.5:
+                args.append(p.default)
+                dflt.append(p.name)
+            else:
+                args.append(object())
+        for k in kws:
+            p = so.parameters.get(k)
+            if p is not None and p.kind in (p.POSITIONAL_OR_KEYWORD, p.KEYWORD_ONLY) and p.default is not p.empty and rng.random() < 0.5:
+                kwargs[k] = p.default
+                dflt.append(k)
+            else:
+                kwargs[k] = object()
+        plan, payload = plan_call(so, sn, args, kwargs)
+        if plan == "routed":
+            na, nk, dr = payload
+            got = ("routed", len(na), tuple(sorted(nk)), tuple(sorted(dr)))
+        else:
+            got = (plan,)
+        cases.append((w, o, n, kws, dflt, got))
+    for _ in range(n_real):
+        if not differing:
+            break
+        mk_case(*rng.choice(differing))
+    for _ in range(n_synth):
+        o, w = random_sig(rng), random_sig(rng)
+        if rng.random() < 0.5:          # related signatures: rename / drop / reorder a parameter of o
+            w = list(o)
+            if w and rng.random() < 0.6:
+                i = rng.randrange(len(w))
+                if w[i][1] in ("PosOnly", "PosOrKw", "KwOnly"):
+                    w[i] = (w[i][0] + "_r", w[i][1], w[i][2])
+            if w and rng.random() < 0.5:
+                del w[rng.randrange(len(w))]
+            w = tuple(w)
+        try:
+            so = inspect.Signature([inspect.Parameter(nm, rev[kd], default=(7 if df else inspect.Parameter.empty)) for nm, kd, df in o])
+            sn = inspect.Signature([inspect.Parameter(nm, rev[kd], default=(7 if df else inspect.Parameter.empty)) for nm, kd, df in w])
+        except ValueError:
+            continue
+        mk_case(w, o, so, sn)
+    bad = []
+    for off in range(0, len(cases), 300):
+        chunk = cases[off:off + 300]
+        txt = HEADER + """
+Definition encp_ (w o : list param) (c : call) (p : plan) : list nat :=
+  let tbl := names o ++ names w ++ c_kws c in
+  match p with
+  | Direct => [0] | Foreign => [1] | Original => [2]
+  | Routed c' d => 3 :: c_npos c' :: length (c_kws c') :: map (fun k => index_of_ k tbl) (c_kws c') ++ map (fun k => index_of_ k tbl) d
+  end.
+Definition cs_ : list (list param * list param * call * list string) := [
+""" + ";\n".join(f"({siglit(w)}, {siglit(o)}, {calllit(n, kws)}, [" + "; ".join(f'"{a}"' for a in dflt) + "])"
+                 for (w, o, n, kws, dflt, _) in chunk) + "].\n"
+        txt += "Eval vm_compute in map (fun x => let '(w, o, c, d) := x in encp_ w o c (adapter w o (fun a => mem a d) c)) cs_.\n"
+        ok, out = common.coq_eval_file(ctx, f"c19_adapter_{off}", txt)
+        enc = _parse_nested(out, "list (list nat)") if ok else None
+        if enc is None or len(enc) != len(chunk):
+            ctx.oblige("tie:adapter-model-equals-plan_call", False, "tie", out[-1500:])
+            return {"present": True, "error": True}
+        for i, ((w, o, n, kws, dflt, got), code) in enumerate(zip(chunk, enc)):
+            tbl = [p[0] for p in o] + [p[0] for p in w] + list(kws)
+            if code[0] == 3:
+                nk = code[2]
+                model = ("routed", code[1], tuple(sorted(tbl[j] for j in code[3:3 + nk])), tuple(sorted(tbl[j] for j in code[3 + nk:])))
+            else:
+                model = ({0: "direct", 1: "foreign", 2: "original"}[code[0]],)
+            if model != got:
+                bad.append((w, o, n, kws, dflt, "model", model, "real", got))
+    import collections
+    dist = collections.Counter(c[5][0] for c in cases)
+    ctx.oblige(f"tie:adapter-model-equals-plan_call({len(cases)} random call forms: {dict(dist)})", not bad, "tie",
+               "" if not bad else repr(bad[:3]))
+    return {"present": True, "signature_pairs": len(pairs), "pairs_not_plainly_forwarding": len(differing), "cases": len(cases),
+            "plans": dict(dist)}
+
+
 def run(ctx):
     ctx.trusted_base = [
         "Coq 8.16.1 kernel; vm_compute (no native_compute); no axioms (all C19 theorems closed under the global context)",
@@ -1179,6 +1289,8 @@ def run(ctx):
     cases, expected = correspondence(ctx, real_sigs, n_real, n_synth) if real_sigs else ([], [])
 
     lap("correspondence")
+    ad = adapter_tie(ctx, usable, *((300, 300) if ctx.tier == "quick" else (3000, 3000)))
+    lap("adapter_tie")
     # ---- second half of the property: behavioural differential over call forms x boundary values, no theorem
     try:
         expl = behavioural(ctx, usable, ctx.tier, ctx.rng, 110 if ctx.tier == "quick" else 1200)
@@ -1233,6 +1345,7 @@ def run(ctx):
                               "binding": int(sum(expected)), "not_binding": len(expected) - int(sum(expected))},
         "sampled_accepting_calls_on_subsuming_pairs": pos_checked,
         "behavioural_differential_call_forms_x_boundary_values": expl,
+        "call_signature_adapter": ad,
         "phase_seconds": phase,
     })
     ctx.samples = samples + [{"callable": e["key"][4:], "verdict": "subsumes", "original": str(e["orig_sigs"][0]),
